@@ -663,7 +663,31 @@ func (s *crSess) judgeDir(d, names string, acked, issued int, exact bool, prop s
 			}
 			return -1
 		}(); ml >= 0 {
-			fail(prop+"-acked-value-lost", fmt.Sprintf("the recovered keys are those of commits[:%d] (acked %d) but a value-log value is not: %s", ml, acked, matches(ml)))
+			// is the commit that wrote the unreadable value an acknowledged one?
+			tag := "-value-lost"
+			latest := map[string]int{}
+			for ci, c := range s.commits[:ml] {
+				for _, e := range c.ents {
+					latest[string(e.key)] = ci
+				}
+			}
+			for _, k := range wantKeys {
+				ci, ok := latest[k]
+				if !ok || s.commits[ci].ents == nil {
+					continue
+				}
+				var w crEnt
+				for _, e := range s.commits[ci].ents {
+					if string(e.key) == k {
+						w = e
+					}
+				}
+				g := gets[k]
+				if !w.del && len(w.val) >= s.cfg.thr && !(g.found && bytes.Equal(g.val, w.val)) && ci < acked {
+					tag = "-acked-value-lost"
+				}
+			}
+			fail(prop+tag, fmt.Sprintf("the recovered keys are those of commits[:%d] (acked %d) but a value-log value is not: %s", ml, acked, matches(ml)))
 		} else if lower >= 0 {
 			fail(prop+"-lost-acked", fmt.Sprintf("recovered state equals commits[:%d] but %d commits were acknowledged (first lost: ts=%d)", lower, acked, s.commits[lower].ts))
 		} else {
@@ -720,7 +744,9 @@ func crOpenErrKind(err error) string {
 
 func (s *crSess) ackedIssued(g int) (acked, issued int) {
 	for _, c := range s.commits {
-		if c.ackedAt < g {
+		// acknowledged when ackedAt events had been logged: before event ackedAt+1, so a crash
+		// right after event g >= ackedAt can come after the acknowledgement
+		if c.ackedAt <= g {
 			acked++
 		}
 		if c.issuedAt < g {
